@@ -344,6 +344,22 @@ def str_method(ex, s, name, args, kw, st):
         return [(st, SBool(z3.SuffixOf(ex.z_str(a), zs)))]
     if name == 'format':
         return [(st, fresh_str('fmt'))]
+    if name == 'split' and not args and not kw:
+        lib('str.split() (uninterpreted word count / words; IndexError beyond the count)')
+        nw = W.nwords(zs)
+        st.assume(nw >= 0)
+
+        def sp_index(ex2, o, i, s2):
+            if not isinstance(i, int) or i < 0:
+                raise OutsideSubset('split()[sym]')
+            res = []
+            for s3, b in ex2.decide(s2, nw > i):
+                if b:
+                    res.append((s3, SStr(W.word(zs, z3.IntVal(i)))))
+                else:
+                    ex2.raise_on(s3, 'IndexError', 'split()[%d]' % i)
+            return res
+        return [(st, Opaque('strsplit', {'index': sp_index, 'of': s}))]
     if name == 'join':
         h = getattr(ex, 'str_join', None)
         if h:
